@@ -421,6 +421,11 @@ def generate(repo):
     if len(sheb) != 1:
         fail("flux get_header: expected one shebang template")
     defn("flux_shebang", "template", coq_template(sheb[0]))
+    # the header of a local step's restart script
+    lsheb = set(t for t in format_calls(ws) if t.startswith("#!"))
+    if len(lsheb) != 1:
+        fail("flux _write_script: expected one shebang template for the restart script of a local step")
+    defn("flux_local_header", "template", coq_template(lsheb.pop()))
     # flux0_49_0.parallelize: leading literal words and appended flags, in order
     mod = parse(repo, FLUXIF)
     icls = None
@@ -440,6 +445,11 @@ def generate(repo):
                 and isinstance(n.func.value, ast.Name) and n.func.value.id == "args" and len(n.args) == 1 \
                 and isinstance(n.args[0], ast.Constant) and isinstance(n.args[0].value, str):
             flags.append((n.lineno, n.args[0].value))
+        # args += ["-x", <value>]
+        if isinstance(n, ast.AugAssign) and isinstance(n.op, ast.Add) and isinstance(n.target, ast.Name) \
+                and n.target.id == "args" and isinstance(n.value, ast.List) and n.value.elts \
+                and isinstance(n.value.elts[0], ast.Constant) and isinstance(n.value.elts[0].value, str):
+            flags.append((n.lineno, n.value.elts[0].value))
     if lead is None:
         fail("flux parallelize: `args = [...]` not found")
     defn("flux_par_lead", "list str", coq_list([coq_str(x) for x in lead]))
